@@ -126,8 +126,8 @@ MUTANTS = {
         m("raw-pickle", E, "        options_hash = hash_bytes(pickle_dumps(self._options))\n        export_options_hash = hash_struct(list(sorted(self._export_options)))\n        if not self._export_options:\n            # Backwards", "        import pickle\n\n        options_hash = hash_bytes(pickle.dumps(self._options))\n        export_options_hash = hash_struct(list(sorted(self._export_options)))\n        if not self._export_options:\n            # Backwards", "C16.3"),
     ],
     "C17": [
-        m("overrides-filtered-by-base", T, "        # Be sure to clone the actual type, in case it's a derived one.\n        return self.__class__(\n            self.func,\n            name=self.name,\n            namespace=self.namespace,\n            version=self.version,\n            compat=self.compat,\n            script=self.script,\n            source=self.source,\n            hash_includes=self._hash_includes,\n            task_options_base=self._task_options_base,\n            task_options_override=new_task_options_update,\n        )", "        for key in list(new_task_options_update):\n            if self._task_options_base.get(key) == new_task_options_update[key]:\n                del new_task_options_update[key]\n        return self.__class__(\n            self.func,\n            name=self.name,\n            namespace=self.namespace,\n            version=self.version,\n            compat=self.compat,\n            script=self.script,\n            source=self.source,\n            hash_includes=self._hash_includes,\n            task_options_base=self._task_options_base,\n            task_options_override=new_task_options_update,\n        )", "C17.2"),
-        m("clone-drops-version", T, "            version=self.version,\n            compat=self.compat,\n            script=self.script,\n            source=self.source,\n            hash_includes=self._hash_includes,\n            task_options_base=self._task_options_base,\n            task_options_override=new_task_options_update,\n        )", "            compat=self.compat,\n            script=self.script,\n            source=self.source,\n            hash_includes=self._hash_includes,\n            task_options_base=self._task_options_base,\n            task_options_override=new_task_options_update,\n        )", "C17.2"),
+        m("overrides-filtered-by-base", T, "        # Be sure to clone the actual type, in case it's a derived one.\n        return self.__class__(\n            self.func,\n            name=self.name,\n            namespace=self.namespace,\n            version=self.version,\n            compat=self.compat,\n            script=self.script,\n            source=self.source,\n            hash_includes=self._hash_includes,\n            task_options_base=self._task_options_base,\n            task_options_override=new_task_options_update,\n            export_options=self._export_options,\n        )", "        for key in list(new_task_options_update):\n            if self._task_options_base.get(key) == new_task_options_update[key]:\n                del new_task_options_update[key]\n        return self.__class__(\n            self.func,\n            name=self.name,\n            namespace=self.namespace,\n            version=self.version,\n            compat=self.compat,\n            script=self.script,\n            source=self.source,\n            hash_includes=self._hash_includes,\n            task_options_base=self._task_options_base,\n            task_options_override=new_task_options_update,\n            export_options=self._export_options,\n        )", "C17.2"),
+        m("clone-drops-version", T, "            version=self.version,\n            compat=self.compat,\n            script=self.script,\n            source=self.source,\n            hash_includes=self._hash_includes,\n            task_options_base=self._task_options_base,\n            task_options_override=new_task_options_update,\n            export_options=self._export_options,\n        )", "            compat=self.compat,\n            script=self.script,\n            source=self.source,\n            hash_includes=self._hash_includes,\n            task_options_base=self._task_options_base,\n            task_options_override=new_task_options_update,\n            export_options=self._export_options,\n        )", "C17.2"),
         m("base-options-hashed", T, "        if self._task_options_override:\n            task_options_hash = [get_type_registry().get_hash(self._task_options_override)]", "        if self._task_options_override:\n            task_options_hash = [get_type_registry().get_hash({**self._task_options_base, **self._task_options_override})]", "C17.1"),
         m("includes-unsorted", T, "            hash_includes_hash = sorted(map(get_type_registry().get_hash, self._hash_includes))", "            hash_includes_hash = list(map(get_type_registry().get_hash, self._hash_includes))", "C17.1"),
         m("wrapper-forgets-inner", T, "                hash_includes=wrapper_hash_includes + wrapped_hash_data,", "                hash_includes=wrapper_hash_includes,", "C17.4"),
@@ -385,4 +385,8 @@ _add(
 _add(
     "C27",
     m("options-clone-drops-exports", T, "            task_options_override=new_task_options_update,\n            export_options=self._export_options,\n        )", "            task_options_override=new_task_options_update,\n        )", "C27.5"),
+)
+_add(
+    "C30",
+    m("contentdir-quick-hash", F, "        file_hashes = [file.hash for file in self]\n        return hash_struct([self.type_basename, self.path] + sorted(file_hashes))\n\n\nclass ContentStagingFile", "        file_hashes = self.filesystem.iter_file_hashes(self.path)\n        return hash_struct([self.type_basename, self.path] + sorted(file_hashes))\n\n\nclass ContentStagingFile", "C30.4"),
 )
